@@ -53,7 +53,7 @@ CLAIMS['C12'] = {
   'text': 'Proof: Arrays.index is within [0, number of elements) and injective on in-bounds subscript tuples (nonlinear integer arithmetic, ranks 1..4, symbolic bounds and subscripts up to 32767, both OPTION BASE values); '
           'view_buffer returns exactly the element slot inside the buffer; check_dim raises Subscript out of range / Illegal function call exactly for invalid tuples and changes no element, auto-dimensions undeclared arrays; '
           'allocate / erase_ / option_base_ follow the statement (Duplicate definition, re-dimensioning after ERASE, base rules, memory bookkeeping).',
-  'note': _TB + 'Ranks are separate cases (1..4 for index, 1..3 for the rest); array buffers have symbolic length with unmodelled content; DataSegment is a stand-in.',
+  'note': _TB + 'Ranks are separate cases (1..4 for index, 1..3 for the rest); array buffers have symbolic length with unmodelled content; DataSegment is a stand-in. Call sites added: DataSegment.view_or_create_variable dimensions an undeclared array on a first use by read, and ExpressionParser.parse_indices hands subscripts on unjudged (the expression parser is a stand-in there).',
 }
 CLAIMS['C26'] = {
   'text': 'Proof: Locks.acquire_record_lock / release_record_lock / try_record_access / open_file / close_file: Permission denied iff the requested range overlaps a lock held on the same file name through any number, '
@@ -79,7 +79,7 @@ CLAIMS['C44'] = {
 CLAIMS['C15'] = {
   'text': 'Proof: converter.protect / converter.unprotect are mutually inverse on every byte string of lengths 0,1,2,142..145 and 290 (all bytes symbolic; every one of the 143 key-schedule indices covered twice including the wrap-around), '
           'decided by the bit-vector back end; Program.save followed by Program.load in protected and tokenised mode restores byte-identical program memory, position and flags.',
-  'note': _TB + 'Streams are io.BytesIO stand-ins; the disk layer EOF byte is supplied by the harness; rebuild_line_dict stubbed (C13). ASCII format and the command-line converter are not covered. One defect found and fixed (empty protected stream crashed).',
+  'note': _TB + 'Streams are io.BytesIO stand-ins; the disk layer EOF byte is supplied by the harness; rebuild_line_dict stubbed (C13). ASCII format and the command-line converter are not covered. One defect found and fixed (empty protected stream crashed). TextFile.read_line (the line reader of ASCII LOAD/MERGE) is checked for lines of 0..300 characters with symbolic contents. Cipher and save/load jobs carry a per-job time cap so that a change that makes them explode reports what the short cases refute instead of timing out.',
 }
 CLAIMS['C16'] = {
   'text': 'Proof of guard obligations: with the program protected (and not in run mode for memory access) Program.store_line/list_lines/save(B,A)/edit/merge, Memory.peek_/poke_/bload_/bsave_ and CHAIN MERGE raise Illegal function call before any collaborator '
@@ -144,7 +144,7 @@ CLAIMS['C30'] = {
 CLAIMS['C23'] = {
   'text': 'Proof of the reset postconditions on the real reset code (Implementation.clear_/new_/run_/_clear_all, Interpreter.clear/clear_stacks_and_pointers, DataSegment.clear with the real Scalars/Arrays/StringSpace/UserFunctionManager/Randomiser clear methods): '
           'after CLEAR, NEW and RUN no scalar, array, string, DEF FN, DEFtype, OPTION BASE, FOR/WHILE/GOSUB stack, error trap, event trap or random state survives. CHAIN/COMMON is not covered.',
-  'note': _TB + 'Devices, program object and event table are recording stand-ins; the populated state is one concrete scenario. One defect found and fixed (CLEAR kept the GOSUB stack).',
+  'note': _TB + 'Devices, program object and event table are recording stand-ins; the populated state is one concrete scenario. One defect found and fixed (CLEAR kept the GOSUB stack). Also: UserFunctionManager.clear leaves no callable function (define, call, clear, call history); Implementation.chain_ passes exactly the stated preservation flags to _clear_all and opens the program file before anything is cleared (a failing CHAIN loses nothing - one defect found and fixed there, and one in preserve_commons for string-valued DEF FN entries).',
 }
 
 CLAIMS['C36'] = {
@@ -167,7 +167,7 @@ CLAIMS['C21'] = {
 CLAIMS['C38'] = {
   'text': 'Proof of transition contracts over symbolic handler records: a trap subroutine is entered only if a program is running, traps are not suspended, and the handler is enabled, triggered, not stopped and has a line; dispatch consumes the trigger and stops the event; only its own RETURN (or ON) clears stopped; ON/OFF/STOP keep a recorded occurrence; '
           'plus an AST frame check that no other function writes event state. Hence no re-entry and no dispatch during an error handler (lemma over the contracts).',
-  'note': _TB + 'Two symbolic handlers stand for any number; trigger conditions of the device handlers and the input-queue plumbing ("lost while OFF") are not covered.',
+  'note': _TB + 'Two symbolic handlers stand for any number; trigger conditions of the device handlers and the input-queue plumbing ("lost while OFF") are not covered. Also: Interpreter.set_pointer installs the enabled handlers in run mode and none in direct mode; EventQueues.set_basic_event_handlers keeps every enabled handler in the input chain whether or not it is stopped.',
 }
 
 CLAIMS['C20'] = {
@@ -178,7 +178,7 @@ CLAIMS['C20'] = {
 
 CLAIMS['C09'] = {
   'text': 'Proof against the reference definitions for symbolic string contents and symbolic numeric arguments over the whole Integer range: LEFT$, RIGHT$, MID$, INSTR (least matching position), STRING$, SPACE$, LEN, ASC, CHR$, concatenation (String too long iff > 255), = and > (byte-wise lexicographic, prefix first), LSET/RSET and the MID$ statement (including the overlapping source = target case), with Illegal function call exactly outside the documented ranges.',
-  'note': _TB + 'String lengths are case parameters on stated grids (including 0, 1, 254, 255; shorter grids for the quadratic functions); string space uses a DataSegment stand-in; the statement wrappers DataSegment.mid_/lset_/rset_ are not covered.',
+  'note': _TB + 'String lengths are case parameters on stated grids (including 0, 1, 254, 255; shorter grids for the quadratic functions); string space uses a DataSegment stand-in; the statement wrappers DataSegment.mid_/lset_/rset_ are not covered. Added after seeding rounds: the relational operators at operator level (values.eq/neq) including operands that share an address (a computed empty string, a variable with itself), and CHR$ of single/double arguments (Overflow beyond the Integer range).',
 }
 
 CLAIMS['C41'] = {
